@@ -76,17 +76,88 @@ class State:
 class VC:
     """hyps |= goal.  kind: 'valid' (must be unsat when negated), 'cover' (hyps must be sat)."""
 
-    def __init__(self, name, hyps, goal, kind="valid", inputs=None, note=""):
+    def __init__(self, name, hyps, goal, kind="valid", inputs=None, note="", axioms=()):
         self.name, self.hyps, self.goal, self.kind = name, list(hyps), goal, kind
+        self.axioms = list(axioms)   # background facts (definitions, lemma instances, model axioms); hyps = path condition
         self.inputs = inputs or {}   # display name -> z3 const (for counter-models)
         self.note = note
         self.result = None           # filled by the back ends
 
-    def smt2(self, logic=None):
+    def levels(self):
+        """Premise selection: SMT texts with growing hypothesis sets (dropping hypotheses is sound for unsat):
+        goal only; hypotheses sharing a symbol with the goal; transitive cone; path condition; everything."""
+        if self.kind != "valid":
+            return []
+        allh = [(h, True) for h in self.hyps] + [(h, False) for h in self.axioms]
+        syms = [_symbols(h) for h, _ in allh]
+        gs = _symbols(self.goal)
+        out, seen = [], set()
+
+        def text(sel):
+            key = tuple(sel)
+            if key in seen:
+                return
+            seen.add(key)
+            s = z3.Solver()
+            for i in sel:
+                s.add(allh[i][0])
+            s.add(z3.Not(self.goal))
+            out.append(s.to_smt2())
+        text([])
+        cone = set(gs)
+        sel = [i for i, sy in enumerate(syms) if sy & cone]
+        text(sel)
+        for _ in range(3):
+            for i in sel:
+                cone |= syms[i]
+            sel2 = [i for i, sy in enumerate(syms) if sy & cone]
+            if sel2 == sel:
+                break
+            sel = sel2
+            text(sel)
+        text([i for i, (h, is_pc) in enumerate(allh) if is_pc])
+        full = tuple(range(len(allh)))
+        if full in seen:
+            out = out[:-1] if False else out
+        return out if full not in seen else out[:-1] if len(out) > 1 and False else out
+
+    def smt2(self, logic=None, with_axioms=True):
         s = z3.Solver()
         for h in self.hyps:
             s.add(h)
+        if with_axioms:
+            for h in self.axioms:
+                s.add(h)
         if self.kind == "valid":
             s.add(z3.Not(self.goal))
         txt = s.to_smt2()
         return txt
+
+
+_SYM_CACHE = {}
+_COMMON = set()
+
+
+def _symbols(e):
+    """Names of uninterpreted constants/functions occurring in e (heap entry arrays excluded: they connect everything)."""
+    key = e.get_id()
+    hit = _SYM_CACHE.get(key)
+    if hit is not None:
+        return hit
+    out, seen, stack = set(), set(), [e]
+    while stack:
+        x = stack.pop()
+        i = x.get_id()
+        if i in seen:
+            continue
+        seen.add(i)
+        if z3.is_quantifier(x):
+            stack.append(x.body())
+            continue
+        if z3.is_app(x):
+            d = x.decl()
+            if d.kind() == z3.Z3_OP_UNINTERPRETED:
+                out.add(d.name())
+            stack.extend(x.children())
+    _SYM_CACHE[key] = frozenset(out)
+    return _SYM_CACHE[key]
